@@ -312,6 +312,7 @@ def check_case(case: dict, rng: random.Random, max_exhaustive: int) -> Tuple[Opt
 
 
 def shard(seed: int, shard_i: int, n: int, opts: dict) -> dict:
+    build.EXTRA_YIELDS[0] = False      # the number of await points is predicted by the model (Sched)
     rng = random.Random(f"{seed}-{shard_i}-c13{opts.get('salt', '')}")
     g = VGen(rng, async_rate=0.3, user_rate=0.15)
     failures: List[dict] = []
@@ -392,6 +393,7 @@ def run(pid: str, tier: str, seed: int, spec: dict, scale: float = 1.0, salt: st
 
 
 def replay_case(case: dict) -> List[str]:
+    build.EXTRA_YIELDS[0] = False
     wire.set_classes(case.get("classes", []))
     unb, fails, info, _ = check_case(case, random.Random(0), 8)
     return fails if not unb else ["case cannot be built: " + unb]
